@@ -354,6 +354,7 @@ def run(ctx):
     rule_xlang(ctx, cd)
     # single-language specialisations whose failure makes one target (or one option point) disagree with the others
     _codec.rule_zero_cost(ctx, pyfront.PyIndex(ctx.root), "R-C03-ZEROCOST")
+    _codec.rule_float_sat(ctx, cd, "R-C03-FLOAT-SAT")
     _codec.rule_sat_use(ctx, cd, "R-C03-SAT-USE")
     _codec.rule_offset_sets(ctx, cd, "ser", "R-C03-OFFSET-SET-SER")
     _codec.rule_offset_sets(ctx, cd, "des", "R-C03-OFFSET-SET-DES")
